@@ -188,6 +188,27 @@ pub const CORPUS: &[&str] = &[
     "SELECT id, regexp_contains(city, 'N.*') AS rc, regexp_extract(city, '(N)(Y)', 0, 1) AS re, regexp_replace(city, 'N', 'M') AS rr FROM users ORDER BY id",
     "SELECT id, encode(city, 'hex') AS e FROM users ORDER BY id",
     "SELECT id, decode(city, 'hex') AS d FROM users ORDER BY id",
+    // special syntaxes and operator neighbourhoods, written by hand on both sides (parser and renderer)
+    "SELECT id FROM users WHERE city NOT ILIKE 'n%' ORDER BY id",
+    "SELECT id, age IN (30) AS one, NOT (age IN (30)) AS none FROM users ORDER BY id",
+    "SELECT id, 1e3 AS k, 1.5e-3 AS m, -age AS na, - (age - 3) AS nb, -(-age) AS nn FROM users ORDER BY id",
+    "SELECT id, SUBSTRING(city FROM 1 FOR 1) AS s, POSITION('Y' IN city) AS p FROM users ORDER BY id",
+    "SELECT id, TRIM(BOTH 'N' FROM city) AS t, TRIM(LEADING 'N' FROM city) AS tl, TRIM(TRAILING 'Y' FROM city) AS tt FROM users ORDER BY id",
+    "SELECT id, -age * 2 AS a, -(age * 2) AS b, pow(-age, 2) AS c, -pow(age, 2) AS d, 2 - -age AS e FROM users ORDER BY id",
+    "SELECT id, NOT age > 30 AS a, (NOT (age > 30)) = vip AS b, (NOT vip) = (age > 30) AS c FROM users ORDER BY id",
+    "SELECT id, city || '-' || city AS a, city || CAST(age + 1 AS TEXT) AS c FROM users ORDER BY id",
+    "SELECT id, CASE WHEN age > 50 THEN CASE WHEN vip THEN 'a' ELSE 'b' END ELSE 'c' END AS n FROM users ORDER BY id",
+    "SELECT id, vip IS FALSE AS f, vip IS NOT FALSE AS nf, vip IS NOT TRUE AS nt FROM users ORDER BY id",
+    "SELECT id, NULL + age AS na, coalesce(NULL, age) AS c FROM users ORDER BY id",
+    "SELECT id, age FROM users EXCEPT SELECT user_id, qty FROM orders",
+    "SELECT city FROM users INTERSECT SELECT city FROM regions",
+    "SELECT * FROM users AS u JOIN orders AS o ON u.id = o.user_id ORDER BY o.id",
+    "SELECT id, CAST(age AS FLOAT) / 3 AS a, CAST(score AS INTEGER) AS b, CAST(age AS TEXT) AS c, CAST(vip AS INTEGER) AS d FROM users ORDER BY id",
+    "SELECT id, (age BETWEEN 20 AND 30) AND vip AS c, NOT (age BETWEEN 20 AND 30) AS d FROM users ORDER BY id",
+    "SELECT id, age - (score - 1) AS a, age - score - 1 AS b, age / (score / 2) AS c, age / score / 2 AS d, age - (score + 1) AS e FROM users ORDER BY id",
+    "SELECT id, age * (score + 1) AS a, (age + 1) * score AS b, age % 3 AS m, -age % 3 AS nm, -(age % 3) AS mn FROM users ORDER BY id",
+    "SELECT DISTINCT city FROM users ORDER BY city LIMIT 2",
+    "SELECT city, count(*) AS c FROM users GROUP BY city HAVING count(*) > 1 AND avg(age) > 20 ORDER BY city",
     // the clock: nothing in a compilation may depend on when (or on which thread) it ran
     "SELECT id, CURRENT_TIMESTAMP AS seen_at FROM users ORDER BY id",
     "SELECT id, CURRENT_DATE AS d, CURRENT_TIME AS t FROM users WHERE age > 20 ORDER BY id",
